@@ -9,4 +9,5 @@ open XotModel.Props
 #print axioms C20_rtl
 #print axioms C20_routes_agree
 #print axioms C20_routes_compose
+#print axioms C20_inv_preserved
 #print axioms C20_fixed_init
